@@ -36,6 +36,31 @@ fn main() {
             }
             0
         }
+        ("det-c30", i) => {
+            // dev helper: run scenario <i> of the current seed several times, compare the gate traces
+            let sc = c30::gen_scenario(simcore::rng::mix(simcore::rng::verif_seed(), "C30", i.parse().unwrap_or(0)));
+            let reps: usize = args.get(3).and_then(|x| x.parse().ok()).unwrap_or(3);
+            let mut first: Option<String> = None;
+            for r in 0..reps {
+                let f = format!("/tmp/det-c30-{r}.trace");
+                unsafe { std::env::set_var("C30_TRACE_FILE", &f) };
+                let mut n = 0;
+                let o = c30::run(&sc, &mut n);
+                let t = std::fs::read_to_string(&f).unwrap_or_default();
+                println!("rep {r}: kind={} gates={} result={:?}", sc.kind, t.lines().count(), o.map(|o| o.violation));
+                match &first {
+                    None => first = Some(t),
+                    Some(a) => {
+                        if let Some((k, (x, y))) = a.lines().zip(t.lines()).enumerate().find(|(_, (x, y))| x != y) {
+                            println!("  diverges at gate {k}: `{x}` vs `{y}`");
+                        } else if a.lines().count() != t.lines().count() {
+                            println!("  same prefix, other length");
+                        }
+                    }
+                }
+            }
+            0
+        }
         ("trace-c04", i) => {
             // dev helper: run history <i> of the current seed once (PROCSIM_TRACE_DUMP=<file> records every gate)
             let sc = c04::gen_scenario(simcore::rng::mix(simcore::rng::verif_seed(), "C04", i.parse().unwrap_or(0)));
